@@ -20,6 +20,8 @@ fn spaces(tier: Tier) -> Vec<Space> {
             Space { alpha: "SHARE", depth: 3 },
             Space { alpha: "SAME", depth: 2 },
             Space { alpha: "SAME", depth: 3 },
+            Space { alpha: "SELFX", depth: 2 },
+            Space { alpha: "SELFX", depth: 3 },
             Space { alpha: "A1", depth: 2 },
             Space { alpha: "CORE", depth: 3 },
         ],
@@ -36,11 +38,14 @@ fn spaces(tier: Tier) -> Vec<Space> {
             Space { alpha: "SHARE", depth: 3 },
             Space { alpha: "SAME", depth: 2 },
             Space { alpha: "SAME", depth: 3 },
+            Space { alpha: "SELFX", depth: 2 },
+            Space { alpha: "SELFX", depth: 3 },
             Space { alpha: "CORE", depth: 3 },
             Space { alpha: "A0", depth: 3 },
             Space { alpha: "MICRO", depth: 4 },
             Space { alpha: "SHARE", depth: 4 },
             Space { alpha: "SAME", depth: 4 },
+            Space { alpha: "SELFX", depth: 4 },
             Space { alpha: "A2", depth: 2 },
             Space { alpha: "CORE", depth: 4 },
         ],
